@@ -58,3 +58,13 @@ Qed.
 (* table facts: the limits the code enforces *)
 Lemma tf_limits : (process_round_limit, mixin_depth_limit, import_depth_limit) = (64, 64, 8) /\ recursion_error_reported = true.
 Proof. split; reflexivity. Qed.
+
+(* Call.parse fall-through for a name that is not a built-in: name(arguments evaluated) *)
+Lemma unknown_function_passes fuel sc name args vals rest :
+  eval_value fuel sc args = ROk vals ->
+  eval_value (S fuel) sc (VCall name args :: rest)
+  = rbind (eval_value (S fuel) sc rest) (fun r => ROk ((name ++ $"(" ++ concat_str vals ++ $")") :: r)).
+Proof.
+  intros H. cbn [eval_value eval_toks eval_tok]. rewrite H. cbn [rbind].
+  destruct (eval_toks (lookup_with (eval_value fuel sc) sc) (eval_value fuel sc) rest); reflexivity.
+Qed.
